@@ -94,7 +94,8 @@ def judge(part, probe, reg, query, expect_val=None, tag="", base=10):
                 part.count("temperature_scale_skipped")
                 return
             ok = report(part, P.check_parts(np_, reg, quantity=expect_val.v, qdims=expect_val.d, base=base), wit, "conversion.parts")
-            pr, rd = P.check_spans(spans, reg, expect_val.v, expect_val.d, base=base)
+            pr, rd = P.check_spans(spans, reg, expect_val.v, expect_val.d, base=base,
+                                   float_result=bool(np_.get("raw") and np_["raw"].get("f")))
             ok &= report(part, pr, wit, "conversion.spans")
             rdm = np_.get("raw_dimensions")
             if rdm is not None and dims_key(rdm) != dims_key(expect_val.d):
@@ -339,7 +340,7 @@ def work_random(idx, _chunk, seed, n):
             src = "%s %s" % (lit(c), render_name(a))
             tb = render_name(b)
             form = rng.choice(["plain", "mul", "div", "neg", "frac", "pow", "prefixed", "plural", "prod", "constpow", "constpow",
-                               "constpow2", "divpow", "sum", "diff", "summixed"])
+                               "constpow2", "divpow", "sum", "diff", "summixed", "modop", "bitop", "rootconst", "fracpowconst"])
             if form == "mul":
                 tgt = "%d %s" % (rng.randrange(2, 100), tb)
             elif form == "div":
@@ -359,6 +360,25 @@ def work_random(idx, _chunk, seed, n):
                 tgt = "%d %s - %d %s" % (k1, tb, rng.randrange(1, k1), tb)
             elif form == "summixed":
                 tgt = "%s + %d %s" % (tb, rng.randrange(1, 9), tb)
+            elif form == "modop":
+                # the constant of a remainder: 7 u mod 4 u is 3 u
+                k1, k2 = rng.randrange(5, 40), rng.randrange(2, 9)
+                if k1 % k2 == 0:
+                    k1 += 1
+                tgt = rng.choice(["%d %s mod %d %s" % (k1, tb, k2, tb), "(%d mod %d) %s" % (k1, k2, tb)])
+            elif form == "bitop":
+                k1, k2 = rng.randrange(1, 16), rng.randrange(1, 16)
+                op = rng.choice(["and", "or", "xor"])
+                if (op == "and" and k1 & k2 == 0) or (op == "xor" and k1 ^ k2 == 0):
+                    k1, k2, op = 6, 3, "or"
+                tgt = "(%d %s %d) %s" % (k1, op, k2, tb)
+            elif form == "rootconst":
+                # an exact root of a constant and its units: (4 u^2)^(1|2) is 2 u
+                k, pw = rng.choice([(4, 2), (9, 2), (8, 3), (16, 2), (27, 3), (1, 2)])
+                src = "%s %s" % (lit(c), render_name(a))
+                tgt = "(%d %s^%d)^(1|%d)" % (k, tb, pw, pw)
+            elif form == "fracpowconst":
+                tgt = "%s %s" % (rng.choice(["4^1.5", "4^0.5", "9^1.5", "16^0.25", "8^(1|3)"]), tb)
             elif form == "constpow":
                 # a constant under an exponent: (10 cm)^2, (3 ft)^-1, (2 in)^3
                 pw = rng.choice([2, 3, -1, -2])
